@@ -85,6 +85,47 @@ pub assume_specification[ i64::signum ](x: i64) -> (r: i64)
     ensures r == (if x < 0 { -1i64 } else if x == 0 { 0i64 } else { 1i64 });
 } // verus!
 verus! {
+// ---- machine-integer methods vstd does not specify (assumed: std's documented behaviour; debug-build panics are preconditions) ----
+pub assume_specification[ i64::abs ](x: i64) -> (r: i64) requires x != i64::MIN ensures r as int == (if x < 0 { -(x as int) } else { x as int });
+pub assume_specification[ i64::checked_neg ](x: i64) -> (r: Option<i64>) ensures r == (if x == i64::MIN { None::<i64> } else { Some((-x) as i64) });
+pub assume_specification[ i64::wrapping_neg ](x: i64) -> (r: i64) ensures r == (if x == i64::MIN { i64::MIN } else { (-x) as i64 });
+pub assume_specification[ i64::is_negative ](x: i64) -> (r: bool) ensures r == (x < 0);
+pub assume_specification[ i64::is_positive ](x: i64) -> (r: bool) ensures r == (x > 0);
+pub assume_specification[ i64::div_euclid ](x: i64, rhs: i64) -> (r: i64)
+    requires rhs != 0, !(x == i64::MIN && rhs == -1)
+    ensures r as int == (x as int) / (rhs as int);
+pub assume_specification[ i64::saturating_add ](x: i64, y: i64) -> (r: i64)
+    ensures r as int == (if x + y > i64::MAX { i64::MAX as int } else if x + y < i64::MIN { i64::MIN as int } else { x + y });
+pub assume_specification[ i64::saturating_sub ](x: i64, y: i64) -> (r: i64)
+    ensures r as int == (if x - y > i64::MAX { i64::MAX as int } else if x - y < i64::MIN { i64::MIN as int } else { x - y });
+pub assume_specification[ i64::saturating_mul ](x: i64, y: i64) -> (r: i64)
+    ensures r as int == (if x * y > i64::MAX { i64::MAX as int } else if x * y < i64::MIN { i64::MIN as int } else { x * y });
+pub assume_specification[ i64::abs_diff ](x: i64, y: i64) -> (r: u64) ensures r as int == (if x >= y { x - y } else { y - x });
+pub assume_specification[ i64::checked_shl ](x: i64, s: u32) -> (r: Option<i64>) ensures (s >= i64::BITS) == (r is None), s < i64::BITS ==> r == Some(x << s);
+pub assume_specification[ i64::checked_shr ](x: i64, s: u32) -> (r: Option<i64>) ensures (s >= i64::BITS) == (r is None), s < i64::BITS ==> r == Some(x >> s);
+pub assume_specification[ isize::abs ](x: isize) -> (r: isize) requires x != isize::MIN ensures r as int == (if x < 0 { -(x as int) } else { x as int });
+pub assume_specification[ isize::checked_neg ](x: isize) -> (r: Option<isize>) ensures r == (if x == isize::MIN { None::<isize> } else { Some((-x) as isize) });
+pub assume_specification[ isize::wrapping_neg ](x: isize) -> (r: isize) ensures r == (if x == isize::MIN { isize::MIN } else { (-x) as isize });
+pub assume_specification[ isize::is_negative ](x: isize) -> (r: bool) ensures r == (x < 0);
+pub assume_specification[ isize::is_positive ](x: isize) -> (r: bool) ensures r == (x > 0);
+pub assume_specification[ isize::div_euclid ](x: isize, rhs: isize) -> (r: isize)
+    requires rhs != 0, !(x == isize::MIN && rhs == -1)
+    ensures r as int == (x as int) / (rhs as int);
+pub assume_specification[ isize::saturating_add ](x: isize, y: isize) -> (r: isize)
+    ensures r as int == (if x + y > isize::MAX { isize::MAX as int } else if x + y < isize::MIN { isize::MIN as int } else { x + y });
+pub assume_specification[ isize::saturating_sub ](x: isize, y: isize) -> (r: isize)
+    ensures r as int == (if x - y > isize::MAX { isize::MAX as int } else if x - y < isize::MIN { isize::MIN as int } else { x - y });
+pub assume_specification[ isize::saturating_mul ](x: isize, y: isize) -> (r: isize)
+    ensures r as int == (if x * y > isize::MAX { isize::MAX as int } else if x * y < isize::MIN { isize::MIN as int } else { x * y });
+pub assume_specification[ isize::abs_diff ](x: isize, y: isize) -> (r: usize) ensures r as int == (if x >= y { x - y } else { y - x });
+pub assume_specification[ isize::checked_shl ](x: isize, s: u32) -> (r: Option<isize>) ensures (s >= isize::BITS) == (r is None), s < isize::BITS ==> r == Some(x << s);
+pub assume_specification[ isize::checked_shr ](x: isize, s: u32) -> (r: Option<isize>) ensures (s >= isize::BITS) == (r is None), s < isize::BITS ==> r == Some(x >> s);
+pub assume_specification[ i64::rem_euclid ](x: i64, rhs: i64) -> (r: i64)
+    requires rhs != 0, !(x == i64::MIN && rhs == -1)
+    ensures r as int == (x as int) % (rhs as int);
+pub assume_specification[ usize::abs_diff ](x: usize, y: usize) -> (r: usize) ensures r as int == (if x >= y { x - y } else { y - x });
+} // verus!
+verus! {
 pub open spec fn ord_reverse(o: Ordering) -> Ordering { match o { Ordering::Less => Ordering::Greater, Ordering::Equal => Ordering::Equal, Ordering::Greater => Ordering::Less } }
 pub open spec fn ord_then(o: Ordering, p: Ordering) -> Ordering { match o { Ordering::Equal => p, _ => o } }
 pub assume_specification[ Ordering::reverse ](o: Ordering) -> (r: Ordering) ensures r == ord_reverse(o);
